@@ -95,6 +95,17 @@ fn contexts(world: &World) -> Vec<(String, InsertionContext)> {
                 if catch(|| ctx.restore()).is_err() {
                     continue;
                 }
+                // the shape an earlier recreate step leaves behind: one of the jobs to be evaluated carries a concrete
+                // unassignment code (the evaluator skips it for unmodified tours - whatever the fold has found so far must survive)
+                if k >= 2 {
+                    for (which, job) in [("first", take.first()), ("last", take.last())] {
+                        if let Some(job) = job {
+                            let mut coded = ctx.deep_copy();
+                            coded.solution.unassigned.insert(job.clone(), UnassignmentInfo::Simple(vrp_core::models::ViolationCode(1)));
+                            out.push((format!("{root_name}/take{k}@{start}/coded-{which}"), coded));
+                        }
+                    }
+                }
                 out.push((format!("{root_name}/take{k}@{start}"), ctx));
             }
         }
